@@ -428,6 +428,11 @@ Act_Transparent ==
   /\ (act'.op \in {"Get", "Has", "IterAll", "IterOpen", "IterRead", "IterNext", "IterClose", "CacheWrap"}) => (base' = base /\ ov' = ov)
   /\ (act'.op = "Flush" /\ res'.pan = "") => (TopViewOf(base', ov') = TopView /\ \A k \in AllKeys : ~ov'[k].d)
 
+\* an operation that runs out of gas (or overflows the meter) has not taken effect: every charge of
+\* Set/Delete precedes the delegated write
+Act_NoEffectOnGasPanic ==
+  (res'.pan \in {"OutOfGas", "GasOverflow"}) => (base' = base /\ ov' = ov)
+
 \* the documented gas function (closed form), for stacks where the meter sees the caller's operations
 GasVisible == HasLayer("gas") /\ GasExactIn(stack)
 ItemsCost(items) == IF items = <<>> THEN 0
@@ -482,7 +487,7 @@ Inv_TraceFaithful ==
 
 \* res/act are outside the VIEW and TLC evaluates INVARIANTS only on states whose view is new, so the
 \* predicates over results are also checked on every transition (primed)
-AProp == [][Act_Transparent /\ Act_GasExact /\ Inv_PrefixIsolation' /\ Inv_NoGasNoPanic' /\ Inv_TraceFaithful']_vars
+AProp == [][Act_Transparent /\ Act_GasExact /\ Act_NoEffectOnGasPanic /\ Inv_PrefixIsolation' /\ Inv_NoGasNoPanic' /\ Inv_TraceFaithful']_vars
 
 \* ---- constants for the configurations ---------------------------------------------------------------------
 Lp(p) == [t |-> "prefix", p |-> p]
